@@ -62,6 +62,28 @@ fn main() {
         }
         return;
     }
+    if prop == "bigdbg" {
+        let t0 = std::time::Instant::now();
+        let mut p = puppet::Puppet::spawn();
+        let region = p.pattern(1300, "hole", "rw");
+        eprintln!("pattern done {:.2}s", t0.elapsed().as_secs_f64());
+        let t = p.mkthread(puppet::Kind::Spin);
+        p.set_gpr(t, puppet::RSP, region + 4096 + 8);
+        p.start(t);
+        p.quiesce();
+        eprintln!("thread started {:.2}s", t0.elapsed().as_secs_f64());
+        let r = dump::dump_mem(p.pid, &dump::DumpOpts::default());
+        eprintln!("dump done {:.2}s", t0.elapsed().as_secs_f64());
+        if let dump::DumpResult::Ok(bytes) = r {
+            let d = mdv_core::mdparse::Dump::parse(&bytes);
+            eprintln!("parse done {:.2}s ({} bytes)", t0.elapsed().as_secs_f64(), bytes.len());
+            let e = d.structural_errors();
+            eprintln!("structure done {:.2}s {}", t0.elapsed().as_secs_f64(), e.len());
+            let m = p.read(region, 1300 * 4096);
+            eprintln!("readback done {:.2}s {}", t0.elapsed().as_secs_f64(), m.len());
+        }
+        return;
+    }
     if prop == "trace" {
         // debugging aid: print the intercepted libc call trace of one plain dump of a 3-thread puppet
         let mut b = shapes::build(&shapes::Shape::threads(3));
